@@ -35,7 +35,7 @@ pub enum Source<'a> {
 
 /// the C18 battery: element, tuple, path, join, filter, aggregate, belief, order/limit patterns.
 /// `sorted`: the answer is a set (no ORDER BY), compared after sorting its rows.
-pub const BATTERY: [(&str, &str, &str, bool); 31] = [
+pub const BATTERY: [(&str, &str, &str, bool); 54] = [
     ("concept-default", "FIND(?e) WHERE { ?e CONCEPT {} }", "", true),
     ("concept-archived", "FIND(?e.id, ?e.name, ?e._system.version) WHERE { ?e CONCEPT {state: \"archived\"} }", "", true),
     ("concept-tombstoned", "FIND(?e.id, ?e._system.version) WHERE { ?e CONCEPT {state: \"tombstoned\"} }", "", true),
@@ -76,6 +76,42 @@ pub const BATTERY: [(&str, &str, &str, bool); 31] = [
     ("optional", "FIND(?p.id, ?a.id, ?a.lifecycle.status) WHERE { ?p PROPOSITION (?s, ?pred, ?o) OPTIONAL { ?a ASSERTION {proposition: ?p} } }", "", true),
     ("union", "FIND(?c.id, ?c._system.state) WHERE { ?c CONCEPT {type: \"Person\"} UNION { ?c CONCEPT {state: \"archived\"} } }", "", true),
     ("belief-slot", "FIND(?slot.contested, ?slot.accepted) WHERE { ?slot BELIEF SLOT (:c1, \"prefers\") }", "", true),
+    // ---- every (element kind, matcher key) pair `column_of` / `view_key` of kql/matching.rs know, constrained
+    // to values the generated elements really carry (all statuses of the lifecycle clauses, classes,
+    // digests, canonical ids): a present-day read answers through the index column, a read AS OF a
+    // coordinate re-checks the key against the rendered view of the version row — the two must agree
+    ("k-concept-id", "FIND(?e.id, ?e._system.version) WHERE { ?e CONCEPT {id: \"C-1\"} }", "", true),
+    ("k-concept-schema_ref", "FIND(?e.id) WHERE { ?e CONCEPT {schema_ref: \"kip://profiles/cognitive-memory@2.0.0/Person\"} }", "", true),
+    ("k-concept-key", "FIND(?e.id, ?e.key) WHERE { ?e CONCEPT {key: \"k1\"} UNION { ?e CONCEPT {key: \"k2\"} } UNION { ?e CONCEPT {key: \"k3\"} } }", "", true),
+    ("k-concept-name", "FIND(?e.id, ?e.name) WHERE { ?e CONCEPT {name: \"n1\"} UNION { ?e CONCEPT {name: \"n2\"} } UNION { ?e CONCEPT {name: \"n3\"} } }", "", true),
+    ("k-concept-canonical_id", "FIND(?e.id, ?e.canonical_id) WHERE { ?e CONCEPT {canonical_id: \"cid1\"} UNION { ?e CONCEPT {canonical_id: \"cid2\"} } UNION { ?e CONCEPT {canonical_id: \"cid3\"} } UNION { ?e CONCEPT {canonical_id: \"cid4\"} } }", "", true),
+    ("k-concept-state", "FIND(?e.id, ?e._system.state) WHERE { ?e CONCEPT {state: \"active\"} UNION { ?e CONCEPT {state: \"merged\"} } }", "", true),
+    ("k-assertion-id", "FIND(?a.id, ?a._system.version) WHERE { ?a ASSERTION {id: \"A-1\"} }", "", true),
+    ("k-assertion-state", "FIND(?a.id, ?a._system.state) WHERE { ?a ASSERTION {state: \"active\"} UNION { ?a ASSERTION {state: \"archived\"} } UNION { ?a ASSERTION {state: \"tombstoned\"} } }", "", true),
+    ("k-assertion-proposition", "FIND(?a.id) WHERE { ?a ASSERTION {proposition: \"P-1\"} }", "", true),
+    ("k-assertion-stance", "FIND(?a.id) WHERE { ?a ASSERTION {stance: \"support\"} }", "", true),
+    ("k-assertion-mode", "FIND(?a.id) WHERE { ?a ASSERTION {mode: \"stated\"} }", "", true),
+    ("k-assertion-status", "FIND(?a.id, ?a.lifecycle.status) WHERE { ?a ASSERTION {status: \"active\"} UNION { ?a ASSERTION {status: \"retracted\"} } UNION { ?a ASSERTION {status: \"superseded\"} } }", "", true),
+    ("k-assertion-by", "FIND(?a.id, ?who) WHERE { ?a ASSERTION {by: ?who} }", "", true),
+    ("k-evidence-id", "FIND(?e.id, ?e._system.version) WHERE { ?e EVIDENCE {id: \"E-1\"} }", "", true),
+    ("k-evidence-state", "FIND(?e.id, ?e._system.state) WHERE { ?e EVIDENCE {state: \"active\"} UNION { ?e EVIDENCE {state: \"archived\"} } UNION { ?e EVIDENCE {state: \"tombstoned\"} } }", "", true),
+    ("k-evidence-evidence_class", "FIND(?e.id) WHERE { ?e EVIDENCE {evidence_class: \"message\"} }", "", true),
+    ("k-evidence-class", "FIND(?e.id) WHERE { ?e EVIDENCE {class: \"message\"} }", "", true),
+    ("k-evidence-content_digest", "FIND(?e.id, ?e.content_digest) WHERE { ?e EVIDENCE {content_digest: \"d1\"} UNION { ?e EVIDENCE {content_digest: \"d2\"} } UNION { ?e EVIDENCE {content_digest: \"d3\"} } }", "", true),
+    ("k-evidence-status", "FIND(?e.id, ?e.lifecycle.status) WHERE { ?e EVIDENCE {status: \"active\"} UNION { ?e EVIDENCE {status: \"corrected\"} } }", "", true),
+    ("k-activity-id", "FIND(?x.id, ?x._system.version) WHERE { ?x ACTIVITY {id: \"X-1\"} }", "", true),
+    ("k-activity-activity_class", "FIND(?x.id) WHERE { ?x ACTIVITY {activity_class: \"reflection\"} }", "", true),
+    ("k-activity-class", "FIND(?x.id) WHERE { ?x ACTIVITY {class: \"reflection\"} }", "", true),
+    ("k-activity-status", "FIND(?x.id, ?x.status) WHERE { ?x ACTIVITY {status: \"pending\"} UNION { ?x ACTIVITY {status: \"running\"} } UNION { ?x ACTIVITY {status: \"completed\"} } UNION { ?x ACTIVITY {status: \"failed\"} } }", "", true),
+];
+
+/// every (kind, matcher key) pair some battery query constrains (the translator reads this list into
+/// `Gen/QueryForms.lean` `batteryKeys`; `check_battery_forms` verifies each claim against the query texts)
+pub const BATTERY_KEYS: [(&str, &str); 25] = [
+    ("Concept", "id"), ("Concept", "state"), ("Concept", "type"), ("Concept", "schema_ref"), ("Concept", "key"), ("Concept", "name"), ("Concept", "canonical_id"),
+    ("Assertion", "id"), ("Assertion", "state"), ("Assertion", "proposition"), ("Assertion", "stance"), ("Assertion", "mode"), ("Assertion", "status"), ("Assertion", "by"),
+    ("Evidence", "id"), ("Evidence", "state"), ("Evidence", "evidence_class"), ("Evidence", "class"), ("Evidence", "content_digest"), ("Evidence", "status"),
+    ("Activity", "id"), ("Activity", "state"), ("Activity", "activity_class"), ("Activity", "class"), ("Activity", "status"),
 ];
 
 /// every WHERE form of `kql/mod.rs` `apply_clause_inner` the battery exercises (the translator reads this
@@ -89,7 +125,14 @@ pub fn check_battery_forms() -> Vec<String> {
     for (_, q, tail, _) in BATTERY {
         if let Ok(cmd) = anda_kip::parse_kip(&format!("{q}{tail}")) { seen.push_str(&format!("{cmd:?}")); }
     }
-    BATTERY_FORMS.iter().filter(|f| !seen.contains(&format!("{f} {{")) && !seen.contains(&format!("{f}("))).map(|f| f.to_string()).collect()
+    let mut missing: Vec<String> = BATTERY_FORMS.iter().filter(|f| !seen.contains(&format!("{f} {{")) && !seen.contains(&format!("{f}("))).map(|f| f.to_string()).collect();
+    // a claimed (kind, key) pair: some query has `<KIND> {… key: …}`
+    for (kind, key) in BATTERY_KEYS.iter() {
+        let open = format!("{} {{", kind.to_uppercase());
+        let found = BATTERY.iter().any(|(_, q, _, _)| q.match_indices(&open).any(|(i, _)| { let rest = &q[i + open.len()..]; let end = rest.find('}').unwrap_or(rest.len()); rest[..end].contains(&format!("{key}:")) }));
+        if !found { missing.push(format!("{kind}.{key}")); }
+    }
+    missing
 }
 /// the pattern that also reaches `pending` shell rows (root cause F-C17-1); reported under its own key
 pub const ANYSTATE: (&str, &str) = ("concept-anystate", "FIND(?e.id, ?e._system.version) WHERE { ?e CONCEPT {state: ?s} }");
@@ -136,7 +179,18 @@ fn scrub(text: &str, purged: &[String]) -> String {
 
 /// replay = recording; after a committed purge of some elements only for what does not depend on
 /// them ("only an explicit purge removes the past"). `None` = not comparable any more.
+/// Present-day answers that are an engine error on the unchanged tree (reported as finding
+/// `present-day-evidence-status-matcher-internal-error`: `column_of` sends `(Evidence, "status")` to the
+/// index column `status`, and `init_evidence` creates no index on it, so the present-day read fails with
+/// InternalError while the same read AS OF a coordinate — re-checked against the view — answers). Exactly
+/// this (query, recorded answer) pair is set aside, counted in the histogram (`battery-error:…`); once the
+/// engine answers, the query is compared like every other.
+const KNOWN_PRESENT_DAY_ERRORS: [(&str, &str); 1] = [("k-evidence-status", "error: InternalError")];
+
 fn same_answer(i: usize, recorded: &str, now: &str, purged_since: &[String]) -> Option<bool> {
+    if i != usize::MAX && KNOWN_PRESENT_DAY_ERRORS.iter().any(|(q, a)| *q == BATTERY[i].0 && *a == recorded) {
+        return None;
+    }
     if purged_since.is_empty() {
         return Some(recorded == now);
     }
